@@ -60,7 +60,7 @@ def changed(snap, a):
     return out
 
 
-def finish(name, hyps, harness, funcs, bound, sig, classes=(), max_paths=600):
+def finish(name, hyps, harness, funcs, bound, sig, classes=(), max_paths=600, witfn=None):
     ex = Explorer(hyps, max_paths=max_paths)
     try:
         paths = ex.run(harness)
@@ -78,6 +78,9 @@ def finish(name, hyps, harness, funcs, bound, sig, classes=(), max_paths=600):
             for b in conds:
                 if b is True:
                     found[lab] = None
+                    if witfn is not None:
+                        v, m = Q.check(hyps + p.cond(), 20, tag=f"{name}|{lab}|model")
+                        found[lab] = (core.normalised_model(hyps + p.cond(), 20) or m) if v == "sat" else None
                     break
                 nq += 1
                 v, m = Q.check(hyps + p.cond() + [b], 20, tag=f"{name}|{lab}")
@@ -87,7 +90,7 @@ def finish(name, hyps, harness, funcs, bound, sig, classes=(), max_paths=600):
     res = []
     for lab, m in found.items():
         res.append(result(f"{name}|{lab}", VIOLATED, functions=funcs, bound=bound, twin="sat", signature=f"{sig}|{lab}",
-                          witness={"kind": sig.split("|")[1], "label": lab}))
+                          witness=dict({"kind": sig.split("|")[1], "label": lab}, **(witfn(m) if (witfn is not None and m is not None) else {}))))
     if ex.truncated:
         res.append(result(name, INCONCLUSIVE, reason="path cap", functions=funcs, bound=bound))
         return res
@@ -105,7 +108,20 @@ def network_queries():
                              "local_cyclemotif_clustering", "local_midmotif_clustering", "local_inmotif_clustering",
                              "local_outmotif_clustering", "laplacian", "nsi_laplacian", "undirected_adjacency", "edge_list",
                              "path_lengths", "matching_index", "link_attribute")]
-    return qs
+    # shortest-path measures on the link attribute (the memoised weighted path-length matrix is shared between them)
+    la = [(m, {"link_attribute": "la"}) for m in ("path_lengths", "average_path_length", "closeness", "global_efficiency", "diameter",
+                                                  "laplacian", "local_vulnerability")]
+    # the memoisation key includes the call pattern: internal callers pass the attribute name positionally, users may do either
+    pos = [(m, {"__pos__": ("la",)}) for m in ("path_lengths", "average_path_length", "closeness", "global_efficiency", "local_vulnerability")]
+    tail = [("path_lengths", {"link_attribute": "la"}), ("average_path_length", {"link_attribute": "la"}),
+            ("path_lengths", {"__pos__": ("la",)}), ("average_path_length", {"__pos__": ("la",)})]
+    return qs + la + pos + tail
+
+
+def invoke(net, meth, kw):
+    kw = dict(kw)
+    args = kw.pop("__pos__", ())
+    return getattr(net, meth)(*args, **kw)
 
 
 def ob_network_frame(name, G, reverse):
@@ -139,7 +155,7 @@ def ob_network_frame(name, G, reverse):
                     elif meth == "nsi_interregional_betweenness":
                         r = net.nsi_interregional_betweenness(sources=[0], targets=[n - 1])
                     else:
-                        r = getattr(net, meth)(**kw)
+                        r = invoke(net, meth, kw)
                 except (pe.Unsupported, NotImplementedError, AssertionError, ZeroDivisionError, ValueError, TypeError, KeyError, SystemError):
                     continue
                 if isinstance(r, (np.ndarray, pe.SSparse)):
@@ -147,23 +163,28 @@ def ob_network_frame(name, G, reverse):
                 # frame: object state and every earlier result are what they were
                 out.append((f"{meth}{sorted(kw)} modifies the adjacency", changed(base["sp_A"], net.sp_A)))
                 out.append((f"{meth}{sorted(kw)} modifies the node weights", changed(base["node_weights"], net._node_weights)))
-                for (m2, kw2, r2, s2) in results[:-1] if isinstance(r, (np.ndarray, pe.SSparse)) else results:
+                earlier = results[:-1] if isinstance(r, (np.ndarray, pe.SSparse)) else results
+                for idx, (m2, kw2, r2, s2) in enumerate(earlier):
                     c = changed(s2, r2)
                     if c:
                         out.append((f"{meth}{sorted(kw)} modifies the array returned earlier by {m2}{sorted(kw2)}", c))
+                        results[idx] = (m2, kw2, r2, snapshot(r2))      # attribute a change to the query that made it, once
             # repeating a query returns an equal value
             for (m2, kw2, r2, s2) in results:
                 try:
                     again = net.link_attribute("la") if m2 == "link_attribute" else (
-                        net.nsi_interregional_betweenness(sources=[0], targets=[n - 1]) if m2 == "nsi_interregional_betweenness" else getattr(net, m2)(**kw2))
+                        net.nsi_interregional_betweenness(sources=[0], targets=[n - 1]) if m2 == "nsi_interregional_betweenness" else invoke(net, m2, kw2))
                 except Exception:  # noqa
                     continue
                 c = changed(s2, again)
                 if c:
                     out.append((f"repeating {m2}{sorted(kw2)} returns a different value", c))
         return [(l, c) for l, c in out if c]
+    def witfn(m):
+        return {"G": G, "w": [sx.model_value(m, x.v) for x in w],
+                "la": [[0 if i == j else sx.model_value(m, Wm[i, j].v) for j in range(n)] for i in range(n)]}
     return finish(name, hyps, harness, funcs, f"topology {G}, symbolic weights and link attribute, {len(qs)} queries in {'reverse' if reverse else 'registry'} order",
-                  "C06|Network", (Network,))
+                  "C06|Network", (Network,), witfn=witfn)
 
 
 def ob_interacting_frame(name, G):
@@ -356,18 +377,24 @@ def replay(w):
     if kind in ("Network", "InteractingNetworks"):
         from pyunicorn.core import Network, InteractingNetworks
         import re
-        net = InteractingNetworks.SmallTestNetwork()
-        net.silence_level = 3
-        W = np.arange(36, dtype=float).reshape(6, 6) % 5 + 1
-        net.set_link_attribute("la", W + W.T)
+        if "G" in w:
+            f = core.to_float
+            net = Network(adjacency=np.array(w["G"]), node_weights=np.array(f(w["w"]), dtype=float), silence_level=3)
+            net.set_link_attribute("la", np.array(f(w["la"]), dtype=float))
+        else:
+            net = InteractingNetworks.SmallTestNetwork()
+            net.silence_level = 3
+            W = np.arange(36, dtype=float).reshape(6, 6) % 5 + 1
+            net.set_link_attribute("la", W + W.T)
         m = re.match(r"(repeating )?(\w+)\[(.*?)\]", lab)
         if not m:
             return False, "unparsed label"
         meth = m.group(2)
-        kw = {"key": "la"} if "key" in m.group(3) else {}
+        kwof = lambda t: {"key": "la"} if "key" in t else ({"link_attribute": "la"} if "link_attribute" in t else ({"__pos__": ("la",)} if "__pos__" in t else {}))
+        kw = kwof(m.group(3))
         call = lambda name, kw_: (getattr(net, name)([0, 1, 2]) if name.startswith("internal") else getattr(net, name)([0, 1, 2], [3, 4, 5])) \
             if (name.startswith(("cross_", "internal_", "nsi_cross", "local_efficiency")) and hasattr(InteractingNetworks, name) and not hasattr(Network, name)) \
-            else getattr(net, name)(**kw_)
+            else invoke(net, name, kw_)
         if m.group(1):
             a = np.array(call(meth, kw), dtype=float).copy()
             b = np.array(call(meth, kw), dtype=float)
@@ -376,7 +403,7 @@ def replay(w):
         A0, w0, pl0 = net.adjacency.copy(), net.node_weights.copy(), net.path_lengths().copy()
         first = None
         if m2:
-            kw2 = {"key": "la"} if "key" in m2.group(2) else {}
+            kw2 = kwof(m2.group(2))
             first = call(m2.group(1), kw2)
             f0 = np.array(first, dtype=float).copy()
         call(meth, kw)
